@@ -217,10 +217,16 @@ def c02_families(tier, seed, ids=None):
     # loops written directly inside the bodies of loops: k1 outer iterators x k2 inner iterators (x an innermost loop), the inner loop first / last /
     # only under a condition in the outer body; at top level, in a function, in a generator consumed by another loop
     nm = []
-    srcs = [lambda lo: call("cnt", I(lo + 3)), lambda lo: call("fromto", I(lo), I(lo + 3)), lambda lo: call("elems", lst([I(lo + 7), I(lo + 8), I(lo + 9), I(lo + 10)]))]
-    for k1, k2, k3, pos, where in itertools.product((1, 2, 3), (1, 2), (0, 1), ("first", "last", "cond"), ("top", "fn", "gen")):
-        if tier == "quick" and shash((k1, k2, k3, pos, where, seed)) % 3 != 0 and not (k1 >= 2 and k3 == 0 and pos == "last"):
+    plain = [lambda lo: call("cnt", I(lo + 3)), lambda lo: call("fromto", I(lo), I(lo + 3)), lambda lo: call("elems", lst([I(lo + 7), I(lo + 8), I(lo + 9), I(lo + 10)]))]
+    # generators that open a loop of their own before their first yield (map / chain / filter over another generator)
+    composed = [lambda lo: call("mapg", I(lo)), lambda lo: call("chg", I(lo)), lambda lo: call("fltg", I(lo))]
+    cdefs = [assign("mapg", fn(["lo"], fr(["x"], [call("fromto", N("lo"), bin_("+", N("lo"), I(3)))], y(bin_("*", N("x"), I(2)))))),
+             assign("chg", fn(["lo"], block([fr(["x"], [call("fromto", N("lo"), bin_("+", N("lo"), I(1)))], y(N("x"))), fr(["x"], [call("cnt", I(2))], y(bin_("+", N("x"), I(50))))]))),
+             assign("fltg", fn(["lo"], fr(["x"], [call("fromto", N("lo"), bin_("+", N("lo"), I(6)))], iff(bin_("==", bin_("%", N("x"), I(2)), I(0)), y(N("x"))))))]
+    for k1, k2, k3, pos, where, kind in itertools.product((1, 2, 3), (1, 2), (0, 1), ("first", "last", "cond"), ("top", "fn", "gen", "topblock"), ("plain", "composed")):
+        if tier == "quick" and shash((k1, k2, k3, pos, where, kind, seed)) % 4 != 0 and not (k1 >= 2 and k3 == 0 and pos == "last") and not (kind == "composed" and where in ("top", "topblock") and k3 == 0 and pos != "cond"):
             continue
+        srcs = plain if kind == "plain" else composed
         ov = ["oa", "ob", "oc"][:k1]
         iv = ["ia", "ib"][:k2]
         rec = assign("acc", bin_("+", N("acc"), lst([lst([N(v) for v in ov + iv] + ([N("z")] if k3 else []))]))) if where != "gen" else y(lst([N(v) for v in ov + iv] + ([N("z")] if k3 else [])))
@@ -230,13 +236,17 @@ def c02_families(tier, seed, ids=None):
         body = {"first": block([inner, mark]), "last": block([mark, inner]), "cond": block([mark, iff(bin_("==", bin_("%", N(ov[0]), I(2)), I(1)), inner)])}[pos]
         outer = fr(ov, [srcs[j % 3](j) for j in range(k1)], body)
         if where == "top":
-            items = [GEN_DEFS["cnt"], assign("acc", lst([])), outer, N("acc"), assign("acc", lst([])), outer, N("acc")]
+            items = [GEN_DEFS["cnt"]] + cdefs + [assign("acc", lst([])), outer, N("acc"), assign("acc", lst([])), outer, N("acc")]
+        elif where == "topblock":
+            # one top-level statement that runs the nest, then further loops over the same kinds of generator, one after the other
+            items = [GEN_DEFS["cnt"]] + cdefs + [assign("acc", lst([])), block([outer, fr(["e"], [srcs[0](1)], assign("acc", bin_("+", N("acc"), lst([N("e")])))),
+                                                                               fr(["e", "g"], [srcs[1](2), srcs[2](3)], assign("acc", bin_("+", N("acc"), lst([N("e"), N("g")])))), N("acc")]), N("acc")]
         elif where == "fn":
-            items = [GEN_DEFS["cnt"], assign("run", fn([], block([assign("acc", lst([])), outer, N("acc")]))), call("run"), call("run")]
+            items = [GEN_DEFS["cnt"]] + cdefs + [assign("run", fn([], block([assign("acc", lst([])), outer, N("acc")]))), call("run"), call("run")]
         else:
-            items = [GEN_DEFS["cnt"], assign("gen", fn([], outer)), assign("acc", lst([])), fr(["e"], [call("gen")], assign("acc", bin_("+", N("acc"), lst([N("e")])))), N("acc"),
+            items = [GEN_DEFS["cnt"]] + cdefs + [assign("gen", fn([], outer)), assign("acc", lst([])), fr(["e"], [call("gen")], assign("acc", bin_("+", N("acc"), lst([N("e")])))), N("acc"),
                      assign("col", fn([], block([assign("a", lst([])), fr(["e", "n"], [call("gen"), call("fromto", I(0), I(9))], assign("a", bin_("+", N("a"), lst([N("e"), N("n")])))), N("a")]))), call("col")]
-        nm.append(mk(ids, items, {"nest": [k1, k2, k3, pos, where]}))
+        nm.append(mk(ids, items, {"nest": [k1, k2, k3, pos, where, kind]}))
     out.append(("loops nested directly in loop bodies: iterator counts x position x placement", nm, ("value",)))
     # what a loop binds when its iterator expressions mention a name that is also one of its own variables (the expression sees the
     # enclosing variable): the family is shared with C04
@@ -290,6 +300,16 @@ def pure_family():
     fam.append(("closures-yielded-in-loop", [cgen, ccol], call("ccol", I(3))))
     probe = assign("probe", fn([], block([iff(bin_(">", N("gzero"), I(0)), block([assign("pa", I(1)), assign("pb", I(2)), assign("pc", I(3))])), bin_("+", bin_("+", call("toa", N("pa")), call("toa", N("pb"))), call("toa", N("pc")))])))
     dq = assign("deepq", fn(["n"], ife(bin_("==", N("n"), I(0)), call("probe"), call("deepq", bin_("-", N("n"), I(1))))))
+    # functions that return an extension of their argument: two calls with the same base, the first result read after the second call
+    mkarr = assign("mkarr", fn(["n"], block([assign("r", lst([])), fr(["i"], [call("fromto", I(0), N("n"))], assign("r", bin_("+", N("r"), lst([N("i")])))), N("r")])))
+    ext = assign("ext", fn(["b", "v"], bin_("+", N("b"), lst([N("v")]))))
+    exts = assign("exts", fn(["b", "v"], bin_("+", N("b"), call("toa", N("v")))))
+    probe2 = assign("probetwice", fn(["b"], block([assign("ra", call("ext", N("b"), I(7))), assign("rb", call("ext", N("b"), I(8))), lst([N("ra"), N("rb"), call("ext", N("b"), I(7)), N("b")])])))
+    for n in (0, 3, 4, 5, 9):
+        fam.append(("extend-twice-%d" % n, [mkarr, ext, probe2], call("probetwice", call("mkarr", I(n)))))
+    fam.append(("extend-twice-literal", [mkarr, ext, probe2], call("probetwice", lst([N("gzero"), bin_("+", N("gzero"), I(1)), I(2)]))))
+    fam.append(("extend-twice-string", [exts, assign("probes", fn(["b"], block([assign("ra", call("exts", N("b"), I(7))), assign("rb", call("exts", N("b"), I(8))), lst([N("ra"), N("rb"), N("b")])])))],
+                call("probes", bin_("+", bin_("+", St("ab"), St("cd")), St("ef")))))
     # functions with parameters whose locals are assigned only on some paths: a call on the other path reads nil whatever an earlier call left
     flast = assign("flast", fn(["ary", "pred"], block([fr(["e"], [call("elems", N("ary"))], iff(call("pred", N("e")), assign("found", N("e")))), N("found")])))
     big = fn(["x"], bin_(">", N("x"), I(2)))
@@ -345,7 +365,7 @@ def c03_families(tier, seed, ids=None):
     out = []
     ss = []
     for (fname, defs, c), (hname, hist) in itertools.product(fam, histories()):
-        if tier == "quick" and (shash((fname, hname, seed)) % 3 != 0) and hname not in ("none",) and not fname.startswith(("closgen", "unassigned", "yieldval", "yielded-closure", "closures-yielded")):
+        if tier == "quick" and (shash((fname, hname, seed)) % 3 != 0) and hname not in ("none",) and not fname.startswith(("closgen", "unassigned", "yieldval", "yielded-closure", "closures-yielded", "extend-twice")):
             continue
         items = list(defs) + list(hist)
         seen_defs = set()
@@ -905,6 +925,11 @@ def c10_ops():
             ops.append(("computed", lambda t=t, s=s: assign(t, lst([ix1(N(s), I(0)), bin_("+", un("#", N(s)), I(1))]))))
             ops.append(("concat", lambda t=t, s=s: assign(t, bin_("+", N(s), N(t)))))
         ops.append(("iter", lambda t=t: fr(["q"], [call("elems", N(t))], N("q"))))
+        for s2 in V:
+            # three-operand chains with an operand that may be empty, the other one possibly sharing storage with a third variable
+            ops.append(("chain-mid-empty", lambda t=t, s2=s2: assign(t, bin_("+", bin_("+", N(s2), N("vd")), lst([I(9)])))))
+            ops.append(("chain-front-empty", lambda t=t, s2=s2: assign(t, bin_("+", bin_("+", N("vd"), N(s2)), lst([I(9)])))))
+            ops.append(("chain-literal-empty", lambda t=t, s2=s2: assign(t, bin_("+", bin_("+", ix2(N(s2), I(0), I(1)), lst([])), lst([I(6)])))))
         ops.append(("capture", lambda t=t: assign("kcl", call("mkcl", N(t)))))
         ops.append(("lit", lambda t=t: assign(t, call("lit"))))
         ops.append(("prefixlit3", lambda t=t: assign(t, call("pla", un("#", N(t))))))
@@ -950,6 +975,10 @@ def c10_families(tier, seed, ids=None):
         ok = True
         for name, b in seq:
             it = b()
+            if strs and name.startswith("chain-"):
+                e = it["e"]
+                fix = lambda n_: St("9") if n_ == lst([I(9)]) else (St("6") if n_ == lst([I(6)]) else (St("") if n_ == lst([]) else n_))
+                it = assign(it["tgt"]["n"], bin_("+", bin_("+", fix(e["l"]["l"]), fix(e["l"]["r"])), fix(e["r"])))
             if strs and name in ("nest", "computed", "append", "appendslice", "litloop", "iter"):
                 if name == "append":
                     it = assign(it["tgt"]["n"], bin_("+", it["e"]["l"], St("9")))
@@ -1132,6 +1161,26 @@ def c17_families(tier, seed, ids=None):
               call("write"), call("write", I(1), I(2)), call("read", I(1))]:
         ft.append(mk(ids, [c, fr(["q"], [c], N("q")), I(1)], {"arity": pe(c)}))
     out.append(("fromto / elems / indices / argument errors", ft, ("value",)))
+    # the built-ins keep their contracts whatever the program binds to the names of the other built-ins
+    ub = []
+    others = {"fromto": lambda: fr(["q"], [call("fromto", I(1), I(4))], assign("acc", bin_("+", N("acc"), lst([N("q")])))),
+              "elems": lambda: fr(["q"], [call("elems", St("calc"))], assign("acc", bin_("+", N("acc"), lst([N("q")])))),
+              "indices": lambda: fr(["q"], [call("indices", lst([I(7), I(8), I(9)]))], assign("acc", bin_("+", N("acc"), lst([N("q")])))),
+              "elems-nested": lambda: fr(["q"], [call("elems", lst([lst([I(1), St("a")]), Fl(5, 1)]))], assign("acc", bin_("+", N("acc"), lst([N("q")])))),
+              "toa": lambda: assign("acc", bin_("+", N("acc"), lst([call("toa", lst([I(1), St("x")]))]))), "aton": lambda: assign("acc", bin_("+", N("acc"), lst([call("aton", St("12"))]))),
+              "write": lambda: call("write", St("w"))}
+    rebinds = [I(3), lst([I(0), I(2)]), St("s"), fn(["a"], y(I(99))), fn(["a", "b"], block([y(N("a")), y(N("b"))])), fn([], I(0))]
+    for name in ("fromto", "elems", "indices", "toa", "aton", "write"):
+        for rb in rebinds:
+            items = [assign(name, rb)]
+            for oname, mko in others.items():
+                if oname.split("-")[0] == name:
+                    continue
+                items += [assign("acc", lst([])), mko(), N("acc")]
+            ub.append(mk(ids, items, {"rebound": name, "to": pe(rb)[:30]}))
+    if tier == "quick":
+        ub = [x for i, x in enumerate(ub) if (i + seed) % 2 == 0]
+    out.append(("built-ins after the program rebound the name of another built-in", ub, ("value",)))
     rd = []
     inputs = [["s\n", "x" * 4095 + "\n", "y" * 5000 + "\n", "t\n"], [], ["a\n"], ["a\n", "b\n"], ["l1\n", "l2\n", "l3\n"], ["\n", "x\n"], ["1\n", "2\n", "3\n", "4\n", "5\n"], ["a\n", "b"], ["only"]]
     for inp in inputs:
@@ -1379,8 +1428,18 @@ def c11_families(tier, seed, ids=None):
             for j in range(-1, n + 3):
                 items.append(ix2(N("v"), I(i), I(j)))
         ix.append(mk(ids, items + [I(1)], {"bounds": mname}))
+    # operators applied to the results of earlier operators: a grown array or string extended twice, then indexed and compared
+    fo = []
+    for strs in (False, True):
+        unit = (lambda c: St(c)) if strs else (lambda c: lst([St(c)]))
+        for k in range(1, 5):
+            build = [assign("s", unit("a"))] + [assign("s", bin_("+", N("s"), unit("bcdefgh"[j]))) for j in range(k)]
+            items = build + [assign("b", bin_("+", N("s"), unit("X"))), assign("c", bin_("+", N("s"), unit("Y"))), ix1(N("b"), I(k + 1)), ix1(N("c"), I(k + 1)), bin_("==", N("b"), N("c")),
+                             bin_("==", N("b"), bin_("+", N("s"), unit("X"))), bin_("!=", N("b"), bin_("+", N("s"), unit("Y"))), un("#", N("b")), ix2(N("b"), I(0), bin_("+", I(k), I(2))), lst([N("b"), N("c"), N("s")])]
+            fo.append(mk(ids, items, {"fork": [strs, k]}))
     return [("binary operators over special values as the compiler builds them: bare, negated, via globals, via parameters", ss, ("value",)),
-            ("unary operators, nested", us, ("value",)), ("index and slice bounds over values however produced", ix, ("value",))]
+            ("unary operators, nested", us, ("value",)), ("index and slice bounds over values however produced", ix, ("value",)),
+            ("operators on the results of two extensions of one grown value", fo, ("value",))]
 
 
 c11_rule = ("17 binary operators x 18x18 operands (ints, exact floats, signed zero, NaN, +-Inf, booleans, strings, arrays (one holding NaN), nil, a function) each written bare, "
